@@ -19,7 +19,7 @@ type vTemplate struct {
 
 func vKindSet(tier int) []string {
 	if tier == 0 {
-		return []string{"-", "S", "N", "BOOL", "NULL", "L", "B"}
+		return []string{"-", "S", "N", "BOOL", "NULL", "L", "B", "M"}
 	}
 	return vspec.Kinds
 }
